@@ -121,8 +121,10 @@ func (c KeyCfg) Fam() KeyFam {
 	}
 }
 
-func (c KeyCfg) IsRSA() bool { return c.Type != protocol.Secp256r1KeyType && c.Type != protocol.Secp384r1KeyType }
-func (c KeyCfg) PSS() bool   { return c.Type == protocol.RsaPssKeyType }
+func (c KeyCfg) IsRSA() bool {
+	return c.Type != protocol.Secp256r1KeyType && c.Type != protocol.Secp384r1KeyType
+}
+func (c KeyCfg) PSS() bool { return c.Type == protocol.RsaPssKeyType }
 
 // KeyTypes lists the six key types the properties quantify over.
 var KeyTypes = []KeyCfg{
